@@ -539,6 +539,9 @@ class Interp:
             return mk_enum("Ordering", m.group(1), KNOWN_ENUMS["Ordering"][m.group(1)], [])
         if re.match(r"^(?:\w+::)*[A-Z]\w*$", rhs):      # unit variant of an enum we do not model (error kinds)
             return OPAQUE("unit_variant:" + rhs)
+        m = re.match(r"^((?:\w+::)+)(?:<.*>::)?([A-Z]\w*) \{ (.*) \}$", rhs)
+        if m and m.group(1).rstrip(":").split("::")[-1][:1].isupper():     # struct-like variant of an enum we do not model
+            return mk_enum(m.group(1).rstrip(":"), m.group(2), None, [self.operand(p.split(":", 1)[1], fr) for p in split_top(m.group(3))])
         m = re.match(r"^((?:\w+::)+)<.*>::([A-Z]\w*)\((.*)\)$", rhs)
         if m:       # generic enum we do not model (nom::Err::<..>::Failure(e)): opaque payload holder
             return mk_enum(m.group(1).rstrip(":"), m.group(2), None, [self.operand(x, fr) for x in split_top(m.group(3))])
@@ -741,7 +744,9 @@ class Interp:
         D = self.deref
         for rx, f in self.user_stubs:
             if re.search(rx, c):
-                return f(self, c, a)
+                r = f(self, c, a)
+                if r is not None:      # a user stub may decline (None): the built-in tables are tried next
+                    return r
         if re.search(r"^Box::<\[.*\]>::new_uninit$|^std::boxed::Box::<\[.*\]>::new_uninit$", c):
             return Val("box", cell=BoxCell([None]))
         if re.search(r"box_assume_init_into_vec_unsafe", c):
